@@ -188,7 +188,12 @@ def make_filter_classes():
 
         def _log(self, ev, **kw):
             w = world()
-            w.clog.append({'t': w.sim.now, 'node': self.vid, 'inc': self.vinc, 'ev': ev, **kw})
+            w.clog.append({'t': w.sim.now, 'node': self.vid, 'inc': self.vinc, 'ev': ev, 'li': len(w.sim.log), **kw})
+            if ev == 'process':
+                w.proc_counts[self.vid] = w.proc_counts.get(self.vid, 0) + 1
+            sa = w.stop_after
+            if sa and ev in sa['evs'] and self.vid == sa['node'] and w.stop_at is None:
+                w.stop_at = w.sim.now + int(sa.get(ev + '_ms', sa.get('grace_ms', 1500)) * MS)
 
         def setup(self, config):
             w = world()
@@ -287,8 +292,8 @@ def make_filter_classes():
             res = {}
             for t, k in out.items():
                 src_t = ren.get(t, t)
-                if k['o'] == self.vid and k['tp'] == t and src_t not in frames:
-                    res[t] = make_frame(k)
+                if k['o'] == self.vid:
+                    res[t] = make_frame(k)       # a frame this relay originates (its 'add' topics)
                 else:
                     res[t] = frames[src_t]
             return self._ret(res, min(seqs) if seqs else None)
@@ -347,6 +352,10 @@ class World:
         self.procs = {}       # id -> current Proc
         self.history = []     # all Procs in start order: (id, inc, Proc)
         self.warnings = {'newer': 0, 'older': 0, 'dsnewer': 0}
+        self.proc_counts = {}
+        self.stop_after = scenario.get('stop_after')       # {'node', 'evs': [...], '<ev>_ms': grace}: end the run some time after a client event
+        self.stop_at = None
+        self.stop_counts = scenario.get('stop_counts')     # {node: n}: end the run once every listed node has seen n process() calls
         self._installed = False
         self.VFilter = None
 
@@ -438,6 +447,8 @@ class World:
     def restart(self, node):
         self.incarnation[node] += 1
         self.clog.append({'t': self.sim.now, 'node': node, 'inc': self.incarnation[node], 'ev': 'restart'})
+        if self.scn.get('stop_after_fault_ms') is not None:
+            self.stop_at = self.sim.now + int(self.scn['stop_after_fault_ms'] * MS)
         return self.start(node)
 
     # ------------------------------------------------------------------ run
@@ -473,7 +484,21 @@ class World:
                 sim.loss = loss
             until = int(scn.get('until_ms', 60000) * MS)
             stop_when = scn.get('stop_when_all_done', True)
-            sim.run(until, stop=(lambda: all(not p.alive for p in self.procs.values())) if stop_when else None)
+            if self.stop_after or scn.get('stop_after_fault_ms') is not None:
+                sim.run(until, stop=lambda: self.stop_at is not None and sim.now >= self.stop_at)
+            elif self.stop_counts:
+                sc, pc = self.stop_counts, self.proc_counts
+                grace = [None]
+
+                def stop():
+                    if all(pc.get(k, 0) >= v for k, v in sc.items()):
+                        if grace[0] is None:
+                            grace[0] = sim.now + int(scn.get('grace_ms', 1500) * MS)   # let stragglers (extra, unexpected deliveries) show up
+                        return sim.now >= grace[0]
+                    return all(not p.alive for p in self.procs.values())
+                sim.run(until, stop=stop)
+            else:
+                sim.run(until, stop=(lambda: all(not p.alive for p in self.procs.values())) if stop_when else None)
             self.deadlock = sim.deadlocked()
             self.t_end = sim.now
         finally:
@@ -488,6 +513,8 @@ class World:
         self.clog.append({'t': self.sim.now, 'node': f.get('node'), 'ev': 'fault', 'kind': k, 'step': self.sim.steps})
         if k == 'kill':
             self.kill(f['node'])
+            if self.scn.get('stop_after_fault_ms') is not None:
+                self.stop_at = self.sim.now + int(self.scn['stop_after_fault_ms'] * MS)
         elif k == 'restart':
             self.restart(f['node'])
         elif k == 'kill_restart':
